@@ -13,15 +13,16 @@ PROPERTY = "C11"
 TRACE = "T_Buffer"
 ENUM = {
     "quick":    [dict(module="MC_Buffer", cfg="MC_Buffer_quick.cfg", workers=8)],
-    "thorough": [dict(module="MC_Buffer", cfg="MC_Buffer_thorough.cfg", workers=16)],
+    "thorough": [dict(module="MC_Buffer", cfg="MC_Buffer_thorough.cfg", workers=16, coverage=True)],
 }
 POOL = 12
 CHUNK = 250
 SUB_T = [0.5, 0.25, 0.0625]        # seconds per time sub-tick (case field u = 1, 2, 3)
 SUB_F = 64.0                       # Hz per frequency sub-tick; MAX_FREQUENCY = 78125 sub-ticks (Buffer!FMAXS)
 
-RULE = ("every pair of calls of the TLA+ enumeration (46 geometries of all nine kinds incl. shapes on the edges time 0, "
-        "frequency 0 and MAX_FREQUENCY; time/frequency buffers 0, 1/2, 1, 2 ticks and beyond the domain, paired with the next "
+RULE = ("every pair of calls of the TLA+ enumeration (50 geometries of all nine kinds incl. shapes on the edges time 0, "
+        "frequency 0 and MAX_FREQUENCY and events later than 5e6 s; time/frequency buffers 0, 1/2, 1, 2 ticks and beyond the domain "
+        "(time buffers up to 1e8 s for the closed-form kinds: the time axis has no upper edge), paired with the next "
         "larger setting; negative-buffer combinations) plus random geometries and buffers on a larger lattice; each probed on a "
         "grid of lattice points around the geometry; non-trivial = both buffers non-negative and not both zero")
 TRUSTED_BASE = ["checks/c11.py + vt/geom.py (build geometries and buffers on dyadic units, call buffer_geometry, min/max of the "
@@ -123,12 +124,14 @@ def _rand_geom(rng):
 
     k = rng.choice(["TimeStamp", "TimeInterval", "BoundingBox", "Point", "MultiPoint", "LineString", "LineString",
                     "MultiLineString", "Polygon", "Polygon", "MultiPolygon"])
+    # closed-form kinds: sometimes late in a very long recording (time has no upper edge; 8e7 sub-ticks >= 5e6 s at every unit)
+    late = rng.choice([0, 0, rng.randint(80_000_000, 400_000_000)]) if k in ("TimeStamp", "TimeInterval", "BoundingBox") else 0
     if k == "TimeStamp":
-        return {"type": k, "coordinates": rng.randint(0, 40)}
+        return {"type": k, "coordinates": late + rng.randint(0, 40)}
     if k == "TimeInterval":
-        return {"type": k, "coordinates": sorted([rng.randint(0, 40), rng.randint(0, 40)])}
+        return {"type": k, "coordinates": sorted([late + rng.randint(0, 40), late + rng.randint(0, 40)])}
     if k == "BoundingBox":
-        t = sorted([rng.randint(0, 40), rng.randint(0, 40)]); q = sorted([f(), f()])
+        t = sorted([late + rng.randint(0, 40), late + rng.randint(0, 40)]); q = sorted([f(), f()])
         return {"type": k, "coordinates": [t[0], q[0], t[1], q[1]]}
     if k == "Point":
         return {"type": k, "coordinates": pt()}
@@ -186,6 +189,8 @@ def random_cases(rng, tier):
     for _ in range(n):
         g = _rand_geom(rng)
         tb = rng.choice([0, rng.randint(1, 12), rng.randint(1, 12), 300])
+        if g["type"] in ("TimeStamp", "TimeInterval", "BoundingBox") and rng.random() < 0.3:
+            tb = rng.randint(80_000_000, 300_000_000)     # a time buffer longer than MAX_FREQUENCY seconds
         fb = rng.choice([0, rng.randint(1, 200), rng.randint(1, 200), 2 * FMAXS])
         mode = rng.random()
         if mode < 0.5:                                   # both axes grow by a comfortable factor (or stay 0)
@@ -196,7 +201,8 @@ def random_cases(rng, tier):
             b2 = [rng.randint(0, 20), rng.randint(0, 300)]
         else:                                            # a negative buffer somewhere
             b2 = [rng.choice([-1, tb]), rng.choice([-5, -1])]
-        yield {"g": g, "b1": [tb, fb], "b2": [min(b2[0], 10 ** 6), min(b2[1], 4 * FMAXS)],
+        cap = 10 ** 9 if g["type"] in ("TimeStamp", "TimeInterval", "BoundingBox") else 10 ** 6
+        yield {"g": g, "b1": [tb, fb], "b2": [min(b2[0], cap), min(b2[1], 4 * FMAXS)],
                "probes": _rand_probes(rng, g), "u": rng.randint(1, 3)}      # buffers stay below 2^20 sub-ticks (Buffer!SlackFor)
 
 
@@ -233,7 +239,7 @@ MANIFEST = {
              "domain, every vertex and lattice point of the original inside the result (exact rational even-odd ray casting on "
              "the output coordinates), bounds reaching the widened bounds clipped to the domain (limb numbers compared in TLA+; "
              "line strings against the inscribed-32-gon bound as well), supersets for comparable buffer pairs, negative buffers "
-             "rejected. TLC enumerates 46 geometries of all nine kinds (incl. shapes on the three domain edges) x 25 buffer "
+             "rejected. TLC enumerates 50 geometries of all nine kinds (incl. shapes on the three domain edges) x 25 buffer "
              "settings paired with the next larger one + negative combinations; a random driver adds larger lattices; every call "
              "is executed on the real code and judged by TLC."),
     "note": ("trusted: TLC, the binder checks/c11.py (encoder; min/max, ring closure and exact point location are generic "
